@@ -87,14 +87,14 @@ def install_fs(h, canon_of):
 
     def push(ex, a, m):
         r = a[0]; p = pathof(r); s = as_str(a[1]).concrete()
-        r.set(PathV('raw', (p.kind, str(p.ident), s))); return UNIT
+        r.set(PathV('raw', (p.kind, p.ident, s))); return UNIT
     R(r'(?:std::path::)?PathBuf::push::<.*>', push)
 
     def pop(ex, a, m):
         r = a[0]; p = pathof(r)
         r.set(PathV('dir', ('dirof', p.kind, p.ident))); return True
     R(r'(?:std::path::)?PathBuf::pop', pop)
-    R(r'(?:std::path::)?Path::join::<.*>', lambda ex, a, m: PathV('raw', (pathof(a[0]).kind, str(pathof(a[0]).ident), as_str(a[1]).concrete())))
+    R(r'(?:std::path::)?Path::join::<.*>', lambda ex, a, m: PathV('raw', (pathof(a[0]).kind, pathof(a[0]).ident, as_str(a[1]).concrete())))
 
     def file_name(ex, a, m):
         p = pathof(a[0])
@@ -116,6 +116,9 @@ def install_fs(h, canon_of):
     R(r'(?:abstract_syntax_tree::)?(?:ast::)?Meta::file_location', lambda ex, a, m: Opaque('loc', deref(a[0])))
 
 
+INCLUDES = ['x.circom', './y.circom']      # the (at most two) include statements a file may hold
+
+
 def find_char(ex, args, m=None):
     s = as_str(args[0]).concrete(); c = args[1]
     i = s.find(chr(c)) if isinstance(c, int) else -1
@@ -128,6 +131,18 @@ def tasks(tier):
         for libs in ('none', 'dir', 'file', 'dir+file'):
             ts.append({'part': 'add_include', 'inc': inc, 'libs': libs})
     ts += [{'part': 'new', 'n': n, 'libs': libs} for n in (1, 2) for libs in ('none', 'dir', 'file', 'dir+file')]
+    # the driver loop of parse_files (take_next / parse_file / add_include) on whole include graphs
+    # (files are interchangeable: quick fixes the first named input to f0; the task is split by the includes of f0)
+    def split(n, libs, first):
+        out = [{'part': 'walk', 'n': n, 'libs': libs, 'first': first, 'n0': 0}]
+        for n0 in range(1, len(INCLUDES) + 1):
+            out += [{'part': 'walk', 'n': n, 'libs': libs, 'first': first, 'n0': n0, 't0': t0} for t0 in range(-1, NF)]
+        return out
+    ts.append({'part': 'walk', 'n': 1, 'libs': 'none', 'first': -1, 'n0': 0})
+    ts += split(1, 'none', 0)
+    if tier == 'thorough':
+        for first in range(1, NF): ts += split(1, 'none', first)
+        for first in range(0, NF): ts += split(2, 'none', first) + split(1, 'dir', first)
     return ts
 
 
@@ -137,7 +152,14 @@ def run_task(task):
     h.notes = {'file_names': {0: 'x.circom', 1: 'y.circom', 2: 'main.circom'}}
     stats = Stats(); base = []; cvars = {}
 
+    def concrete_key(ex, x):
+        # spellings that mention a canonical file are keyed by the concrete file (the same directory whatever name led to it)
+        if isinstance(x, tuple): return tuple(concrete_key(ex, y) for y in x)
+        if is_sym(x): return ex.concretize(x, 0, NF - 1)
+        return x
+
     def canon_of(ex, spelling):
+        if part == 'walk': spelling = concrete_key(ex, spelling)
         key = str(spelling)
         if key not in cvars:
             v = z3.Int('canon_%d' % len(cvars)); cvars[key] = v
@@ -227,6 +249,90 @@ def run_task(task):
                 ex.oblige(ir.get(r, 'x') if False else True, 'ok', 'ok')
         st_, vs, inc = explore(h, entry, None, post=post, stats=stats, seed=common.seed())
 
+    elif part == 'walk':
+        fnew = pr.method(None, 'FileStack', 'new'); take = pr.method(None, 'FileStack', 'take_next'); n = task['n']
+        pfile = pr.crates['parser']['parse_file']
+        ninc = [z3.Int('includes_of_f%d' % k) for k in range(NF)]
+        for k, v in enumerate(ninc): h.inputs['includes_of_f%d' % k] = v; base.append(z3.And(v >= 0, v <= len(INCLUDES)))
+        R = lambda p, f: h.stub_res.append((re.compile(p), f))
+
+        def open_file(ex, a, m):
+            p = pathof(a[0])
+            if p.kind != 'canon': ex.oblige(False, 'canonical', 'a file is opened under a canonical path'); return err(BoxV(Opaque('report', 'fileos')))
+            k = ex.concretize(p.ident, 0, NF - 1) if is_sym(p.ident) else p.ident
+            ex.notes['reads'].append(k)
+            return ok(Struct('()', [StrV.of('path%d' % k), StrV.of('content%d' % k)]))
+        R(r'(?:parser::)?open_file', open_file)
+
+        def add_file(ex, a, m):
+            k = int(as_str(a[2]).concrete()[len('content'):]); iu = a[3]
+            ex.notes['added'].append((k, ex.decide(iu) if is_sym(iu) else iu)); return k
+        R(r'(?:\w+::)*FileLibrary::add_file', add_file)
+
+        def parse_stub(ex, a, m):
+            k = int(as_str(a[0]).concrete()[len('content'):])
+            cnt = ex.concretize(ninc[k], 0, len(INCLUDES))
+            incs = [ir.S('Include', meta=Struct('ast::Meta', [0, 100 * k + j, 100 * k + j + 1, ir.range_(100 * k + j, 100 * k + j + 1), some(k), Opaque('ci'), Opaque('tk'), Opaque('mk')]), path=StrV.of(INCLUDES[j])) for j in range(cnt)]
+            ex.notes['incl'][k] = cnt
+            return ok(ir.S('AST', meta=Opaque('meta'), compiler_version=none(), custom_gates=False, custom_gates_declared=False, includes=VecV(incs), definitions=VecV([]), main_component=none()))
+        R(r'(?:parser_logic::)parse_file', parse_stub)
+        R(r'(?:parser::)?check_compiler_version', lambda ex, a, m: ok(VecV([])))
+
+        def entry(ex):
+            ex.notes.update(reads=[], added=[], incl={}, include_errors=[], iterations=0)
+            paths = VecV([PathV('raw', ('cwd', '', 'in%d.circom' % i)) for i in range(n)])
+            libs = [PathV('dir', ('libdir',))] if task['libs'] == 'dir' else []
+            c0 = canon_of(ex, ('cwd', '', 'in0.circom')); ex.assume(c0 == task['first'])
+            if task['first'] >= 0:
+                ex.assume(ninc[task['first']] == task['n0'])
+                if task['n0'] >= 1: ex.assume(canon_of(ex, ('dir', ('dirof', 'canon', task['first']), INCLUDES[0])) == task['t0'])
+            reports = VecV([])
+            st = ex.call_mir(fnew, [SliceV(paths, 0, n), SliceV(VecV(libs), 0, len(libs)), Ref([reports], 0)])
+            cell = [st]; flib = [Opaque('filelibrary')]; ver = [Struct('()', [2, 1, 4])]
+            while True:
+                r = ex.call_mir(take, [Ref(cell, 0)])
+                if r.var == 'None': break
+                ex.notes['iterations'] += 1
+                if ex.notes['iterations'] > NF + 1:
+                    ex.oblige(False, 'terminates', 'the driver loop yields more files than exist'); break
+                pr_ = ex.call_mir(pfile, [Ref([r.f[0]], 0), Ref(cell, 0), Ref(flib, 0), Ref(ver, 0)])
+                if pr_.var == 'Ok': ex.notes.setdefault('warn', []).append(len(pr_.f[0].f[2].items))
+            return cell[0], reports
+
+        def post(ex, res):
+            st, reports = res; N = ex.notes
+            reads = N['reads']
+            ex.oblige(len(set(reads)) == len(reads), 'once', 'every file is read and parsed once (reads in order: %s)' % reads, extra={'reads': reads})
+            ex.oblige(N['iterations'] <= NF, 'terminates', 'the driver loop ends after at most one iteration per file (%d iterations)' % N['iterations'])
+            # oracle: closure of the named inputs under resolvable includes, from the (now decided) abstract file system
+            val = lambda key: (ex.concretize(cvars[key], -1, NF - 1) if key in cvars else None)
+            inputs = [val(str(('cwd', '', 'in%d.circom' % i))) for i in range(n)]
+            named = set(c for c in inputs if c is not None and c >= 0)
+            def resolve(k, j):
+                sp = INCLUDES[j]
+                c = val(str(('dir', ('dirof', 'canon', k), sp)))
+                if c is not None and c >= 0: return c
+                if task['libs'] == 'dir' and not sp.startswith('.'):
+                    c = val(str(('dir', ('libdir',), sp)))
+                    if c is not None and c >= 0: return c
+                return None
+            want = set(); work = list(named); unresolved = 0
+            while work:
+                k = work.pop()
+                if k in want: continue
+                want.add(k)
+                if k not in N['incl']: continue          # never parsed: reported below
+                for j in range(N['incl'][k]):
+                    t = resolve(k, j)
+                    if t is None: unresolved += 1
+                    else: work.append(t)
+            ex.oblige(set(reads) == want, 'reachable', 'exactly the files reachable from the named inputs through resolvable includes are parsed (parsed %s, reachable %s)' % (sorted(set(reads)), sorted(want)), extra={'reads': reads})
+            nerr = len(N['include_errors'])
+            ex.oblige(nerr == unresolved, 'include-error', 'one error per include that cannot be resolved (%d errors, %d unresolvable includes)' % (nerr, unresolved))
+            for k, iu in N['added']:
+                ex.oblige(iu == (k in named), 'user-input', 'file f%d is classified as %s' % (k, 'a named input' if k in named else 'only included'), extra={'reads': reads})
+        st_, vs, inc = explore(h, entry, None, post=post, base=base, stats=stats, seed=common.seed())
+
     else:   # FileStack::new
         fn = pr.method(None, 'FileStack', 'new'); n = task['n']
         isu = pr.method(None, 'FileStack', 'is_user_input')
@@ -289,6 +395,34 @@ def confirm(task, v):
             open(os.path.join(d, 'main.circom'), 'w').write('pragma circom 2.0.0;\ninclude "bits.circom";\ntemplate M() { signal input a; signal output b; component c = IsNonZero(); c.a <== a; b <== c.b; }\n')
             rc, out = realbin.run(['main.circom', '-L', 'libs/bits.circom'], d)
             return rc != 0 or 'bits.circom' in out, {'exit': rc, 'mentions bits.circom': 'bits.circom' in out, 'out': out[-200:]}, {'exit': 0, 'findings in the library file': False}
+        if part == 'walk':
+            # the abstract file system of the model realised with symbolic links: canonicalize() of a link is its target
+            m = v['model']; import subprocess
+            for k in range(NF):
+                os.makedirs(os.path.join(d, 'd%d' % k))
+                nk = m.get('includes_of_f%d' % k, 0)
+                body = 'pragma circom 2.0.0;\n' + ''.join('include "%s";\n' % INCLUDES[j] for j in range(nk)) + 'template T%d() { signal input a; signal output b; b <== a; }\n' % k
+                open(os.path.join(d, 'd%d' % k, 'f%d.circom' % k), 'w').write(body)
+            def target(key):
+                t = m.get('canon(%s)' % key)
+                return t if isinstance(t, int) and t >= 0 else None
+            for k in range(NF):
+                for sp in INCLUDES:
+                    t = target(str(('dir', ('dirof', 'canon', k), sp)))
+                    if t is not None: os.symlink(os.path.join(d, 'd%d' % t, 'f%d.circom' % t), os.path.join(d, 'd%d' % k, sp.replace('./', '')))
+            args = []
+            for i in range(task['n']):
+                t = target(str(('cwd', '', 'in%d.circom' % i)))
+                if t is not None: os.symlink(os.path.join(d, 'd%d' % t, 'f%d.circom' % t), os.path.join(d, 'in%d.circom' % i))
+                args.append('in%d.circom' % i)
+            env = dict(os.environ, RUST_LOG='circomspect_parser=debug')
+            r = subprocess.run([realbin.binary()] + args, cwd=d, env=env, capture_output=True, text=True, timeout=60)
+            out = r.stdout + r.stderr
+            reads = [int(re.search(r'f(\d)\.circom', l).group(1)) for l in out.split('\n') if 'reading file' in l and re.search(r'f(\d)\.circom', l)]
+            analysed = sorted(set(int(x) for x in re.findall(r"analyzing template 'T(\d)'", out)))
+            want = (v.get('extra') or {}).get('reads')
+            dup = len(set(reads)) != len(reads)
+            return (dup or 'panicked' in out) if v['kind'] in ('once', 'terminates') else None, {'reads': reads, 'analysed templates': analysed, 'exit': r.returncode}, {'each file read once': True}
         if part == 'new':
             rc, out = realbin.run([os.path.join(d, 'missing.circom')], d)
             return rc != 1 or 'error' not in out, {'exit': rc, 'out': out[-200:]}, {'exit': 1, 'an error': True}
@@ -304,6 +438,12 @@ def main(tier, replay=None):
         print('replay: observed=%s expected=%s -> %s' % (got, exp, 'VIOLATION' if bad else 'holds')); return 1 if bad else 0
     bad, got, exp = confirm({'part': 'new', 'n': 1}, None); rep.validated += 1
     if bad: rep.inconclusive.append('fixed scenario (missing input file): real binary %s, expected %s' % (got, exp))
+    # fixed scenario for the driver loop: a diamond with a cycle, realised with symbolic links, through the real binary
+    m = {'includes_of_f0': 2, 'includes_of_f1': 1, 'includes_of_f2': 1, "canon(('cwd', '', 'in0.circom'))": 0,
+         "canon(('dir', ('dirof', 'canon', 0), 'x.circom'))": 1, "canon(('dir', ('dirof', 'canon', 0), './y.circom'))": 2,
+         "canon(('dir', ('dirof', 'canon', 1), 'x.circom'))": 2, "canon(('dir', ('dirof', 'canon', 2), 'x.circom'))": 0}
+    bad, got, exp = confirm({'part': 'walk', 'n': 1, 'libs': 'none'}, {'model': m, 'kind': 'once', 'extra': {}}); rep.validated += 1
+    if bad or sorted(got.get('reads', [])) != [0, 1, 2]: rep.inconclusive.append('fixed scenario (diamond with a cycle): real binary %s, expected every file read once' % (got,))
     ts = tasks(tier)
     results = common.run_tasks('specs.C19', ts)
     known = common.load_known('C19'); seen = {}
@@ -330,10 +470,11 @@ def main(tier, replay=None):
     if rep.nonrepro and not rep.violations:
         rep.inconclusive.append('%d counterexamples did not reproduce with the real binary, e.g. %s' % (len(rep.nonrepro), json.dumps(rep.nonrepro[0], default=str)[:400]))
     pr = prog()
-    rep.bounds = {'files': '%d canonical files, arbitrary visited set, stack depth <= 3 with arbitrary (canonical) contents' % NF,
+    rep.bounds = {'driver loop': 'whole include graphs over %d files: <= 2 include statements per file (`x.circom`, `./y.circom`), every resolution of every spelling (or none), 1 named input (thorough: 2 inputs, a library directory)' % NF,
+                  'files': '%d canonical files, arbitrary visited set, stack depth <= 3 with arbitrary (canonical) contents' % NF,
                   'includes': 'include spellings x.circom, ./x.circom, sub/x.circom; libraries none / a directory / a file / both; canonicalize() arbitrary per spelling'}
-    rep.stubs = ['fs::canonicalize (arbitrary partial map from spellings to canonical files, identity on canonical paths)', 'PathBuf::{push,pop}, Path::{join,is_dir,extension,file_name,display}', 'fs::read_dir (fails)',
+    rep.stubs = ['driver loop: open_file (records the read), FileLibrary::add_file (records the user-input flag), parser_logic::parse_file (returns an AST with the include statements of that file), check_compiler_version', 'fs::canonicalize (arbitrary partial map from spellings to canonical files, identity on canonical paths)', 'PathBuf::{push,pop}, Path::{join,is_dir,extension,file_name,display}', 'fs::read_dir (fails)',
                  'FileOsError/IncludeError::into_report (argument captured)']
     rep.assumptions = ['representation invariant assumed for the pre-state: the stack holds canonical paths only (shown to be preserved by every push)', 'source hash ' + pr.hashes['parser']]
-    rep.outside = ['real path spelling, symlinks, directories given as inputs', 'that parse_files calls take_next/add_include as intended', 'what is reported for definitions of included files (C03 filter clause)']
+    rep.outside = ['real path spelling, symlinks, directories given as inputs', 'the part of parse_files after the loop (program archive, desugaring)', 'what is reported for definitions of included files (C03 filter clause)']
     return rep.finish()
